@@ -652,5 +652,7 @@ func runExtra(ctx *Ctx, what, id string, ev map[string]interface{}, report func(
 		extraAbsPure(ctx, id, ev, report, known)
 	case "pairs":
 		extraPairs(ctx, id, ev, report, known)
+	case "c01pairs":
+		extraC01Pairs(ctx, id, ev, report, known)
 	}
 }
